@@ -32,9 +32,18 @@ ASSUMPTIONS = [
     'Twisted delivers connectionLost once per transport and no data afterwards: a second loss event, and bus '
     'messages after the loss or before BEGIN, are not fed to the protocol (the model ignores them likewise)',
     'the user can act on the connection only after connect() has handed it over; user events before that are skipped',
-    'disconnect callbacks and Deferred callbacks are passive observers: they record, they neither raise nor call '
-    'back into the connection (a raising connection-level callback aborts connectionLost: see '
-    'outside_scope_observation_raising_callback in the evidence)',
+    'disconnect callbacks record that they ran and then perform the actions the case assigns to them: issue a '
+    'reply-expecting call (with or without timeout), register or cancel a disconnect callback on the connection or on '
+    'a proxy; a cancel that the library answers with ValueError is caught by the callback.  They never let an '
+    'exception escape (a raising connection-level callback aborts connectionLost: see '
+    'outside_scope_observation_raising_callback in the evidence).  Callbacks on the Deferreds of calls stay passive '
+    '(an errback that issues a call from inside the loop over _pendingCalls: see C08)',
+    'no proxy-level callback registers or cancels a callback on a DIFFERENT proxy (the code visits the proxies in the '
+    'iteration order of a WeakSet and copies each list when it gets there, so the result would depend on that order; '
+    'the model takes every list when the proxy phase starts); no callback registers itself, directly or through '
+    'another (harmless on the repaired tree, but the unrepaired loop would never return and hang a run against it)',
+    'after the last event of a case virtual time is advanced far beyond every timeout: whatever is still armed fires, '
+    'and the model lets every armed timer run likewise',
     '"live proxy": the harness keeps a strong reference to every proxy it obtained; what happens to callbacks of '
     'garbage-collected proxies is not constrained by the property and not examined',
     'introspection replies: a reply carrying one string is given the body of a fixed valid introspection document '
@@ -125,7 +134,10 @@ class Driver:
                     break
                 self.sync_queue.append(e[0])
         self.nsync = len(self.sync_queue)
-        self.addr, self.s0, self.events = case
+        self.addr, self.s0, self.events = case[0], case[1], case[2]
+        self.acts = {a[0]: a[1] for a in (case[3] if len(case) > 3 else [])}
+        self.in_loss = False
+        self.issued_in_loss = []      # call ids issued by callbacks while connectionLost runs
         self.attempts = []
         self.eps = []
         self.parsed = None
@@ -150,6 +162,7 @@ class Driver:
         self.raised = False
         self.regs_at_loss = []
         self.issued_at_loss = 0
+        self.issued_after_loss = 0
         self.keep = []
 
     # -- connect() with fake endpoints
@@ -202,8 +215,50 @@ class Driver:
                 else:
                     owner = [next((q for q, p in self.proxies.items() if p is obj), -1)]
                 self.ran.append([owner, n, self.reason_id(reason)])
+                for a in self.acts.get(n, ()):
+                    self.act(a)
             self.cbfun[n] = f
         return f
+
+    def act(self, a):
+        """what a re-entrant callback does on the connection it is told about"""
+        if a[0] == 0:
+            cid = self.issue_call({'objectPath': '/org/freedesktop/DBus', 'methodName': 'ReleaseName',
+                                   'interface': 'org.freedesktop.DBus', 'destination': 'org.freedesktop.DBus',
+                                   'signature': 's', 'body': ['org.x.Mine']}, a[1])
+            self.issued_in_loss.append(cid)
+            return
+        owner, n = a[1], a[2]
+        target = self.proxies.get(owner[0]) if owner else self.conn
+        if target is None:
+            return
+        key = (tuple(owner), n)
+        if a[0] == 1:
+            target.notifyOnDisconnect(self.cb(n))
+            self.regs.append(key)
+        else:
+            if key in self.regs:
+                self.regs.remove(key)
+            try:
+                target.cancelNotifyOnDisconnect(self.cb(n))
+            except ValueError:          # a well-behaved callback: it does not let the exception escape
+                self.raised = True
+
+    def issue_call(self, kw, tmo):
+        im = self.im
+        if tmo:
+            kw['timeout'] = tmo[0]
+        serial = im.message.DBusMessage._nextSerial
+        before = set(id(dc) for dc in self.clock.getDelayedCalls())
+        d = self.conn.callRemote(**kw)
+        for dc in self.clock.getDelayedCalls():
+            if id(dc) not in before:
+                self.timer_of[id(dc)] = serial
+                self.keep.append(dc)          # ids stay unique while we hold the objects
+        cid = self.next_id
+        self.next_id += 1
+        d.addCallbacks(self.call_ok, self.call_err, callbackArgs=(cid,), errbackArgs=(cid,))
+        return cid
 
     def reason_id(self, f):
         for r, fr in self.reasons.items():
@@ -342,18 +397,7 @@ class Driver:
                     kw.update(signature='s', body=['arg'])
                 if kind == 1:
                     kw['expectReply'] = False
-            if tmo:
-                kw['timeout'] = tmo[0]
-            serial = im.message.DBusMessage._nextSerial
-            before = set(id(dc) for dc in self.clock.getDelayedCalls())
-            d = self.conn.callRemote(**kw)
-            for dc in self.clock.getDelayedCalls():
-                if id(dc) not in before:
-                    self.timer_of[id(dc)] = serial
-                    self.keep.append(dc)          # ids stay unique while we hold the objects
-            cid = self.next_id
-            self.next_id += 1
-            d.addCallbacks(self.call_ok, self.call_err, callbackArgs=(cid,), errbackArgs=(cid,))
+            self.issue_call(kw, tmo)
         elif t == 1 or t == 2:
             serial = ce[1]
             if self.srv != 'begun' or serial > MAXS:      # REPLY_SERIAL is a 32-bit header field
@@ -379,7 +423,12 @@ class Driver:
             self.srv = 'closed'
             self.regs_at_loss = list(self.regs)
             self.issued_at_loss = self.next_id
-            self.proto.connectionLost(fr)
+            self.in_loss = True
+            try:
+                self.proto.connectionLost(fr)
+            finally:
+                self.in_loss = False
+            self.issued_after_loss = self.next_id
         else:
             raise ValueError('bad calls event %r' % (ce,))
 
@@ -411,6 +460,13 @@ class Driver:
                     raise
                 self.faults.append('event %d: %s: %s' % (i, type(ex).__name__, ex))
             steps.append(self.observe(marks))
+        # let virtual time pass: whatever is still armed fires now
+        d0 = len(self.done)
+        try:
+            self.clock.advance(100000)
+        except Exception as ex:
+            self.faults.append('late: %s: %s' % (type(ex).__name__, ex))
+        self.late = sorted(self.done[d0:], key=lambda c: c[0])
         return init, steps
 
 
@@ -431,6 +487,23 @@ class Impl(c08.Impl):
 
 
 # --------------------------------------------------------------------------
+def expected_books(drv):
+    """the property text, on the harness's own books: the connection-level callbacks registered at the loss, and the
+    proxy-level ones registered once the connection-level callbacks have done what they do"""
+    at_loss = drv.regs_at_loss
+    conn = [k for k in at_loss if not k[0]]
+    prox = [k for k in at_loss if k[0]]
+    for (_, n) in conn:
+        for a in drv.acts.get(n, ()):
+            if a[0] in (1, 2) and a[1] and a[1][0] in drv.proxies:
+                key = (tuple(a[1]), a[2])
+                if a[0] == 1:
+                    prox.append(key)
+                elif key in prox:
+                    prox.remove(key)
+    return conn + prox
+
+
 def canon_model_step(ms):
     fired, comps, pend, tims, ran, objdone, raised, closing, trying, lspec = ms
     return [fired, comps, sorted(pend), sorted(tims), sorted(canon_run(x) for x in ran),
@@ -451,8 +524,9 @@ def evaluate(ctx, cases, res):
     lines = []
     for c in cases:
         kinds = [a[0] for a in c[0]]
-        lines.append('(9 0 %s %d %s)' % (common.dump(kinds), c[1], common.dump(c[2])))
-        lines.append('(9 1 %s %d %s)' % (common.dump(kinds), c[1], common.dump(c[2])))
+        acts = c[3] if len(c) > 3 else []
+        for mode in (0, 1, 2):
+            lines.append('(9 %d %s %d %s %s)' % (mode, common.dump(kinds), c[1], common.dump(c[2]), common.dump(acts)))
     outs = common.run_model(lines)
     saved = im.message.DBusMessage._nextSerial
     saved_reactor = im.client.reactor
@@ -463,14 +537,16 @@ def evaluate(ctx, cases, res):
         'legacy_differs': 0, 'cases': 0})
     try:
         for k, c in enumerate(cases):
-            o, oleg = outs[2 * k], outs[2 * k + 1]
-            if os.environ.get('VERIF_C09_MODEL') == 'legacy':
-                # validation aid: compare the tree under test with the pre-repair model (an unpatched tree must
-                # then show no correspondence disagreement; the oracle is unaffected)
+            o, oleg, oleg2 = outs[3 * k], outs[3 * k + 1], outs[3 * k + 2]
+            # validation aid: compare the tree under test with a pre-repair model (a tree without the repairs
+            # must then show no correspondence disagreement; the oracle is unaffected)
+            if os.environ.get('VERIF_C09_MODEL') == 'legacy':          # before D12/D13, passive callbacks only
                 o, oleg = oleg, o
+            elif os.environ.get('VERIF_C09_MODEL') == 'legacy2':       # before D62/D63
+                o, oleg2 = oleg2, o
             if o == [-1]:
                 raise RuntimeError('model rejected input %r' % (c,))
-            msteps_raw, spec, final_phase, minit = o
+            msteps_raw, spec, final_phase, minit, mlate = o
             drv = Driver(im, c)
             iinit, isteps = drv.run()
             nontrivial = any(e[0] == 1 for e in c[2]) and len(c[2]) >= 3
@@ -481,6 +557,10 @@ def evaluate(ctx, cases, res):
             dist['spec_outcome'][{(): 'pending', (0,): 'ready', (1,): 'failed'}[tuple(spec)]] += 1
             if oleg[0] != msteps_raw or oleg[2] != final_phase:
                 dist['legacy_differs'] += 1
+            if oleg2[0] != msteps_raw or oleg2[4] != mlate:
+                dist['legacy2_differs'] = dist.get('legacy2_differs', 0) + 1
+            if len(c) > 3 and c[3]:
+                dist['with_acting_callbacks'] = dist.get('with_acting_callbacks', 0) + 1
             if iinit is None:
                 res.violate(c, 'connect() raised instead of returning a Deferred: %s' % drv.connect_raised,
                             'connect-raised')
@@ -497,9 +577,10 @@ def evaluate(ctx, cases, res):
                 lspecs.append(b)
             # ---- correspondence
             ok = (iinit == minit and len(isteps) == len(msteps)
-                  and all(same_step(a, b) for a, b in zip(isteps, msteps)) and not drv.faults)
+                  and all(same_step(a, b) for a, b in zip(isteps, msteps)) and not drv.faults
+                  and c08.same_completions(drv.late, sorted(mlate, key=lambda x: x[0])))
             if not ok:
-                res.disagree(c, [iinit, isteps, drv.faults], [minit, msteps])
+                res.disagree(c, [iinit, isteps, drv.late, drv.faults], [minit, msteps, mlate])
             # ---- oracle: implementation against Spec/ConnectSpec.v
             if drv.faults:
                 res.violate(c, 'an exception escaped the library: %r' % (drv.faults,), 'exception-escaped')
@@ -530,8 +611,26 @@ def evaluate(ctx, cases, res):
             for j, (ist, ls) in enumerate(zip(isteps, lspecs)):
                 if ls[0] == 1:
                     loss_at = j
-                    _, fails, runs, objfails = ls
+                    _, fails, runs, objfails, issued_b, issued_a = ls
                     runs = sorted(canon_run(x) for x in runs)
+                    # every call a callback issued while the loss was handled must have failed with the reason too
+                    # (at the 2^32 serial boundary such a call cannot be sent and fails at once instead)
+                    reason = c[2][j][1][1]
+                    during = drv.issued_in_loss
+                    got = {x[0]: x[1] for x in ist[1]}
+                    fails = list(fails) + [[i, got[i] if got.get(i) == [5] and c[1] + 16 > MAXS else [4, reason]]
+                                           for i in during]
+                    d2x = dist.setdefault('loss_reentrant', {'calls_issued_by_callbacks': 0, 'with_deadline': 0,
+                                                             'register_or_cancel': 0})
+                    acted = [a for r_ in ist[4] for a in drv.acts.get(r_[1], ())]
+                    d2x['calls_issued_by_callbacks'] += bool(during)
+                    d2x['with_deadline'] += any(a[0] == 0 and a[1] and a[1][0] for a in acted)
+                    d2x['register_or_cancel'] += any(a[0] in (1, 2) for a in acted)
+                    left = [i for i in during if i not in got]
+                    if left:
+                        res.violate(c, 'calls %r issued by disconnect callbacks while the loss was handled were neither '
+                                       'failed with the loss reason nor completed otherwise: still pending %r, timers %r'
+                                    % (left, ist[2], ist[3]), 'loss-reentrant-call-left-pending')
                     d2 = dist['loss_of_ready_with']
                     d2['calls'] += bool(fails)
                     d2['timers'] += bool(j and isteps[j - 1][3])
@@ -551,7 +650,7 @@ def evaluate(ctx, cases, res):
                     if ist[5] != sorted(objfails):
                         res.violate(c, 'at the loss every pending getRemoteObject must fail: expected %r, got %r'
                                     % (objfails, ist[5]), 'loss-calls-not-failed-once')
-                    if ist[2] or ist[3]:
+                    if (ist[2] or ist[3]) and not left:
                         res.violate(c, 'after the loss _pendingCalls=%r timers=%r' % (ist[2], ist[3]),
                                     'loss-timer-or-entry-left')
                     if ist[4] != runs:
@@ -561,14 +660,18 @@ def evaluate(ctx, cases, res):
                             sig = 'loss-proxy-callback-not-run'
                         res.violate(c, 'at the loss every registered disconnect callback must run once: expected %r, '
                                        'got %r' % (runs, ist[4]), sig)
-                    books = sorted([list(o_), n, c[2][j][1][1]] for (o_, n) in drv.regs_at_loss)
+                    books = sorted([list(o_), n, c[2][j][1][1]] for (o_, n) in expected_books(drv))
                     if books != runs:
                         raise RuntimeError('the specification expects the callbacks %r, the harness registered %r: %r'
                                            % (runs, books, c))
                     if ist[0]:
                         res.violate(c, 'the Deferred of connect() fired again at the loss', 'connect-deferred-fired-twice')
             if loss_at is not None:
-                issued = drv.issued_at_loss
+                issued = drv.issued_after_loss
+                old_late = [x for x in drv.late if x[0] < issued]
+                if old_late:
+                    res.violate(c, 'after the loss, with virtual time advanced past every deadline, calls issued before '
+                                   'or during the loss handling completed: %r' % (old_late,), 'loss-late-timeout-fired')
                 for j in range(loss_at + 1, len(isteps)):
                     ist = isteps[j]
                     old = [x for x in ist[1] if x[0] < issued]
@@ -745,6 +848,66 @@ class Gen:
                     for pos in range(3, len(evs) + 1):
                         yield [addr, s0, evs[:pos] + [lost(rng.randrange(1, 4))] + evs[pos:] + post]
 
+    # R. disconnect callbacks that act on the connection while the loss is handled.  Callbacks 40, 41 are only ever
+    #    registered on the connection, 50 only on proxy 0, 51 only on proxy 1 (so that no proxy-level callback touches
+    #    another proxy: see ASSUMPTIONS); 7, 8 (connection), 21 (proxy 0), 22 (proxy 1) and everything registered by
+    #    an action are passive.  No callback registers itself or its registrar (the unrepaired loop would not return).
+    CONN_ACTIONS = [[0, [5]], [0, []], [0, [0]], [1, [], 60], [1, [], 7], [2, [], 7], [2, [], 8], [2, [], 40], [2, [], 41],
+                    [2, [], 99], [1, [0], 61], [1, [1], 61], [2, [0], 21], [2, [1], 22], [2, [0], 50], [1, [5], 61]]
+    P0_ACTIONS = [[0, [5]], [0, []], [1, [], 62], [2, [], 7], [2, [0], 50], [2, [0], 21], [1, [0], 63], [2, [0], 98]]
+    P1_ACTIONS = [[0, [3]], [0, []], [1, [], 64], [2, [1], 51], [2, [1], 22], [1, [1], 65]]
+
+    def reentrant_case(self, k, deadlines, conn_regs, acts, post_extra=()):
+        rng = self.rng
+        addr = [self.addr_entry(rng.choice([0, 1, 2]))]
+        s0 = rng.choice([1, 5, 40, 1000])
+        evs = [[1], [2], self.hello_ok(s0), [5, 0, 1], [5, 1, 2], ret(s0 + 1, [['s'], ['x']])]
+        serial = s0 + 2
+        for j in range(k):
+            evs.append(call(rng.choice([2, 5, 30]) if deadlines[j] else None))
+            serial += 1
+        evs += [[6, [0], 21], [6, [0], 50], [6, [0], 21], [6, [1], 51], [6, [1], 22]]
+        evs += [[6, [], n] for n in conn_regs]
+        evs.append(lost(rng.randrange(1, 4)))
+        evs += [timer(x) for x in range(s0 + 2, serial + 4)] + list(post_extra)
+        return [addr, s0, evs, [[n, a] for n, a in sorted(acts.items()) if a]]
+
+    def reentrant(self, full):
+        rng = self.rng
+        orders = [[40, 7, 8], [7, 40, 8], [7, 8, 40]]
+        # one acting callback, one action, every position among the connection-level callbacks
+        for a in self.CONN_ACTIONS:
+            for order in orders:
+                for k in (0, 1, 2):
+                    yield self.reentrant_case(k, [1, 0][:k], order, {40: [a]})
+        for a in self.P0_ACTIONS:
+            for k in (0, 2):
+                yield self.reentrant_case(k, [1, 0][:k], [7, 8], {50: [a]})
+        for a in self.P1_ACTIONS:
+            yield self.reentrant_case(1, [1], [7], {51: [a]})
+        # the seeded shape and its relatives: every acting callback issues calls with and without deadline
+        for order in ([40], [40, 41], [7, 40, 41, 8]):
+            for post in ((), (call(4), [6, [], 70], lost(3))):
+                yield self.reentrant_case(1, [1], order, {40: [[0, [5]]], 41: [[0, []], [0, [9]]],
+                                                          50: [[0, [7]]], 51: [[0, []]]}, post)
+        # two acting callbacks, random action lists
+        for _ in range(self.ctx.n(600, 12000)):
+            acts = {}
+            order = [7, 8]
+            for n in rng.sample([40, 41], rng.randrange(1, 3)):
+                acts[n] = [rng.choice(self.CONN_ACTIONS) for _ in range(rng.randrange(1, 4))]
+                order.insert(rng.randrange(0, len(order) + 1), n)
+            if rng.random() < 0.4:
+                order.insert(rng.randrange(0, len(order) + 1), rng.choice([40, 41, 7]))   # registered twice
+            if rng.random() < 0.5:
+                acts[50] = [rng.choice(self.P0_ACTIONS) for _ in range(rng.randrange(1, 3))]
+            if rng.random() < 0.3:
+                acts[51] = [rng.choice(self.P1_ACTIONS) for _ in range(rng.randrange(1, 3))]
+            k = rng.randrange(0, 4)
+            post = [rng.choice([call(4), call(None), [6, [], 70], [6, [0], 71], lost(3), [5, 0, 3], [7, [], 7]])
+                    for _ in range(rng.randrange(0, 3))]
+            yield self.reentrant_case(k, [rng.randrange(0, 2) for _ in range(k)], order, acts, post)
+
     # C. fixed scenarios: the witnesses of D12 / D13 and the boundary of the serial counter
     def scenarios(self):
         a1 = [[0, 0]]
@@ -808,6 +971,7 @@ def gen_cases(ctx):
     g = Gen(ctx)
     yield from g.scenarios()
     yield from g.connecting(ctx.n(3, 3))
+    yield from g.reentrant(not ctx.quick)
     yield from g.in_flight(not ctx.quick)
     yield from g.established_family(ctx.n(500, 12000), ctx.n(10, 14))
     for _ in range(ctx.n(3000, 100000)):
@@ -855,7 +1019,12 @@ def run(ctx, res):
                 '(B) established connections: random programs of <= %d actions (<= 3 calls with and without deadlines, '
                 'explicit and introspected proxies, callbacks registered/cancelled on connection and proxies, replies, '
                 'error replies, expiries) with the loss inserted at every position after Hello, followed by up to 3 late '
-                'events; (C) fixed scenarios incl. the serial boundary 2^32; (D) arbitrary event sequences of <= 15 '
+                'events; (R) acting disconnect callbacks: each of 16 connection-level actions (call with/without '
+                'deadline, register/cancel on the connection or a proxy, cancel itself / a later / an absent callback) x 3 '
+                'positions of the acting callback x 0-2 calls in flight, the same for callbacks on either proxy, the '
+                'shape "every acting callback issues calls", and random programs for 1-4 acting callbacks; virtual time '
+                'is advanced past every timeout at the end of every case; '
+                '(C) fixed scenarios incl. the serial boundary 2^32; (D) arbitrary event sequences of <= 15 '
                 'events.  Address text variants, serials and reply shapes inside the families come from the seeded PRNG.  '
                 'non-trivial = an endpoint connects and the history has >= 3 events; distinct by hash of the case'
                 % ctx.n(10, 14))
@@ -869,8 +1038,8 @@ def run(ctx, res):
         evaluate(ctx, block, res)
     d = res.extra.get('input_distribution', {})
     if d.get('cases'):
-        res.extra['legacy_variants_distinguished'] = '%d of %d cases separate the pre-repair model (D12/D13) from the ' \
-            'current one' % (d['legacy_differs'], d['cases'])
+        res.extra['legacy_variants_distinguished'] = '%d of %d cases separate the model before D12/D13 from the current ' \
+            'one, %d the model before D62/D63' % (d['legacy_differs'], d['cases'], d.get('legacy2_differs', 0))
     res.exhaustive = True
     res.extra['exhaustive_scope'] = ('family A of the rule: all address lists of <= 3 entries x reachability subsets x '
                                      '7 continuations x every loss position')
